@@ -84,6 +84,7 @@ class GeckoAsyncFacade(Observable):
         try:
             while True:
 
+                cancelled = False
                 try:
                     if not self._spa.is_responding_to_pings:
                         continue
@@ -99,13 +100,19 @@ class GeckoAsyncFacade(Observable):
                     # After we've been round here at least once, we're ready
                     self._ready = True
 
+                except asyncio.CancelledError:
+                    cancelled = True
+                    raise
+
                 finally:
-                    wait_time = (
-                        GeckoConfig.FACADE_UPDATE_FREQUENCY_IN_SECONDS
-                        if self._spa.is_responding_to_pings
-                        else GeckoConfig.PING_FREQUENCY_IN_SECONDS
-                    )
-                    await config_sleep(wait_time)
+                    # Don't sit out another update period if we're being cancelled
+                    if not cancelled:
+                        wait_time = (
+                            GeckoConfig.FACADE_UPDATE_FREQUENCY_IN_SECONDS
+                            if self._spa.is_responding_to_pings
+                            else GeckoConfig.PING_FREQUENCY_IN_SECONDS
+                        )
+                        await config_sleep(wait_time)
 
         except asyncio.CancelledError:
             _LOGGER.debug("Facade update loop cancelled")
